@@ -149,13 +149,20 @@ func genC20(t *rapid.T) C20Case {
 	case 7, 8:
 		c.Kind = "ws"
 		c.Entropy = genEntropy(t)
-		sep := rapid.SampledFrom([]string{" ", "  ", "\t", "\n", " \t ", "\r\n", "\v", "\f"})
+		// short and long runs: indentation, column alignment, padded copies
+		seps := []string{" ", "  ", "\t", "\n", " \t ", "\r\n", "\v", "\f", "\n    ", "\t\t\t\t", strings.Repeat(" ", 9), strings.Repeat(" ", 24), "\n\n\n"}
+		pads := []string{"", " ", "\n\t", "   ", strings.Repeat(" ", 40), strings.Repeat("\n", 12), strings.Repeat("\t ", 30)}
 		c.Seps = make([]string, 13)
-		c.Seps[0] = rapid.SampledFrom([]string{"", " ", "\n\t", "   "}).Draw(t, "lead")
+		c.Seps[0] = pads[kit.Uniform(t, len(pads), "lead")]
+		long := kit.Chance(t, 40, "longruns")
 		for i := 1; i < 12; i++ {
-			c.Seps[i] = sep.Draw(t, "sep")
+			if long {
+				c.Seps[i] = seps[kit.Uniform(t, len(seps), "sep")]
+			} else {
+				c.Seps[i] = seps[kit.Uniform(t, 8, "sep")]
+			}
 		}
-		c.Seps[12] = rapid.SampledFrom([]string{"", " ", "\n", " \t\n"}).Draw(t, "trail")
+		c.Seps[12] = pads[kit.Uniform(t, len(pads), "trail")]
 	default:
 		c.Kind = "malformed"
 		c.Entropy = genEntropy(t)
@@ -303,6 +310,9 @@ func runC20(c C20Case, cs *kit.CaseStats) error {
 			sb.WriteString(c.Seps[12])
 		}
 		phrase := sb.String()
+		if len(phrase) > 107 {
+			cs.Class("ws:longer-than-any-canonical-phrase")
+		}
 		if strings.Join(strings.Fields(phrase), " ") != strings.Join(ws, " ") {
 			// separator was not whitespace under the documented splitting rule
 			return fmt.Errorf("harness: separator set broke the phrase %q", phrase)
